@@ -6,6 +6,7 @@
 import Basyx.Model.Aasx
 import Basyx.Props.C19
 import Basyx.Gen.Aasx
+import Basyx.Lemmas.AasxMulti
 namespace Basyx.Aasx
 open Basyx.Files (Name Content CT)
 
@@ -332,6 +333,31 @@ theorem c08_package_files_roundtrip (d : Descends) (F G : Files.St) (hF : Files.
   obtain ⟨_, ⟨n, hn, hb⟩, _⟩ := hone
   exact ⟨f', n, hf', hn, hb⟩
 
+/-! ### packages with several AAS parts (round 8) -/
+
+/-- **Writing part by part and reading part by part is writing and reading the concatenation**: the supplementary parts of a
+    package written with one writer call per AAS part are those of one call over all File elements, and reading the parts
+    (and the submodels in them) one after the other leaves the container, and renames the File elements, exactly as one
+    pass over all of them does - for any number of parts and submodels. -/
+theorem c08_multipart_is_flat (d : Descends) (F G : Files.St) (parts : List Part) (fss : List (List FileEl)) :
+    collectPartsSeq d F fss [] = collectParts d F fss.flatten [] ∧
+    (collectFilesSeq d parts G fss).1 = (collectFiles d parts G fss.flatten).1 ∧
+    (collectFilesSeq d parts G fss).2.flatten = (collectFiles d parts G fss.flatten).2 :=
+  ⟨collectPartsSeq_flatten d F fss [], collectFilesSeq_flatten d parts fss G⟩
+
+/-- **Round trip for every File element of every AAS part**: a package written part by part from `F` and read part by part
+    into ANY receiving container `G`: the File element at (flat) position `i` - whatever part and submodel it sits in, and
+    whether or not an earlier part already brought its file along - that named a file of `F` names a file of the receiving
+    container with exactly the bytes and content type `F` held. -/
+theorem c08_multipart_files_roundtrip (d : Descends) (F G : Files.St) (hF : Files.Inv F) (hG : Files.Inv G)
+    (fss : List (List FileEl)) (i : Nat) (f : FileEl) (hi : fss.flatten[i]? = some f) (v : Name) (c : Content) (ct : CT)
+    (hv : f.value = some v) (hl : (reachable d f && isLocal v) = true) (habs : realpath v = v)
+    (hc : AList.get v (Files.abs F) = some (c, ct)) :
+    ∃ f' n, (collectFilesSeq d (collectPartsSeq d F fss []) G fss).2.flatten[i]? = some f' ∧ f'.value = some n ∧
+      AList.get n (Files.abs (collectFilesSeq d (collectPartsSeq d F fss []) G fss).1) = some (c, ct) := by
+  obtain ⟨h1, h2, h3⟩ := c08_multipart_is_flat d F G (collectPartsSeq d F fss []) fss
+  rw [h2, h3, h1]
+  exact c08_package_files_roundtrip d F G hF hG fss.flatten i f hi v c ct hv hl habs hc
 
 /-! ### non-vacuity: a container that already holds another file under the package's file name -/
 
@@ -345,5 +371,13 @@ example : collectParts Gen.Aasx.descends demoF demoFiles [] = demoParts := by de
 
 example : (collectFiles Gen.Aasx.descends demoParts demoG demoFiles).2 =
     [⟨[.entity], some "/aasx/files/a_0001.pdf".toList⟩, ⟨[], some "https://x/y".toList⟩] := by decide
+
+def demoEl : FileEl := ⟨[.entity], some "/aasx/files/a.pdf".toList⟩
+
+/-- two AAS parts whose File elements name the same stored file, read into a container that holds OTHER bytes under that
+    name: both elements are renamed to the one new entry (the situation of seeded change C08-r8-1) -/
+example : (collectFilesSeq Gen.Aasx.descends (collectPartsSeq Gen.Aasx.descends demoF [[demoEl], [demoEl]] []) demoG
+            [[demoEl], [demoEl]]).2 =
+    [[⟨[.entity], some "/aasx/files/a_0001.pdf".toList⟩], [⟨[.entity], some "/aasx/files/a_0001.pdf".toList⟩]] := by decide
 
 end Basyx.Aasx
